@@ -8,9 +8,12 @@ store and what its caller got are exactly what this fold says.
 namespace CashewsVerif.TxSched
 
 structure BodySt where
-  ov : AL := []
-  del : List Nat := []
+  ov : AL := []                     -- buffered writes of the segment that is open (since the last explicit commit / rollback)
+  del : List Nat := []              -- buffered deletions of the open segment
   results : List (Option Int) := []
+  done : List Mut := []             -- the store mutations of the explicit `tx.commit()`s so far, in order
+  pend : List (Nat × Int) := []     -- the increments `(k, n)` issued in the open segment
+  cinc : List (Nat × Int) := []     -- the increments of the segments ended by an explicit `tx.commit()`
 
 inductive BodyRes where
   | normal (s : BodySt) (unused : List (Option Int))   -- ran to its end; reads left over
@@ -21,20 +24,25 @@ def setxSpec (s : BodySt) (k : Nat) (v : Int) (e p : Bool) : BodySt :=
   if p = e then { s with ov := s.ov.put k v, del := s.del.filter (· ≠ k), results := s.results ++ [some 1] }
   else { s with results := s.results ++ [some 0] }
 
+/-- (with explicit `commit` / `rollback` commands a body is a sequence of *segments*; `done` / `cinc` collect what the
+explicitly committed segments did, `ov` / `del` / `pend` describe the open one, which the end of the block commits iff
+the body returns) -/
 def specBody : List Cmd → List (Option Int) → BodySt → BodyRes
   | [], rd, s => .normal s rd
   | .set k v :: r, rd, s => specBody r rd { s with ov := s.ov.put k v, del := s.del.filter (· ≠ k) }
   | .incr k n :: r, rd, s =>
     match s.ov.get k with
-    | some v => specBody r rd { s with ov := s.ov.put k (v + n), results := s.results ++ [some (v + n)] }
+    | some v => specBody r rd { s with ov := s.ov.put k (v + n), results := s.results ++ [some (v + n)], pend := s.pend ++ [(k, n)] }
     | none =>
       if k ∈ s.del then
-        specBody r rd { s with ov := s.ov.put k n, del := s.del.filter (· ≠ k), results := s.results ++ [some n] }
+        specBody r rd { s with ov := s.ov.put k n, del := s.del.filter (· ≠ k), results := s.results ++ [some n],
+                               pend := s.pend ++ [(k, n)] }
       else
         match rd with
         | [] => .starved
         | x :: rd' =>
-          specBody r rd' { s with ov := s.ov.put k (x.getD 0 + n), results := s.results ++ [some (x.getD 0 + n)] }
+          specBody r rd' { s with ov := s.ov.put k (x.getD 0 + n), results := s.results ++ [some (x.getD 0 + n)],
+                                  pend := s.pend ++ [(k, n)] }
   | .get k :: r, rd, s =>
     if k ∈ s.del then specBody r rd { s with results := s.results ++ [none] }
     else match s.ov.get k with
@@ -64,12 +72,18 @@ def specBody : List Cmd → List (Option Int) → BodySt → BodyRes
         | [] => .starved
         | x :: rd' => specBody r rd' (setxSpec s k v e x.isSome)
   | .sleep _ :: r, rd, s => specBody r rd s
-  | .raise :: _, _, _ => .raised
+  | .raise _ :: _, _, _ => .raised
   | .nestIn _ :: r, rd, s => specBody r rd s
   | .nestOut :: r, rd, s => specBody r rd s
+  | .commit :: r, rd, s =>
+    -- explicit `tx.commit()`: the open segment's write-set goes to the store, a new (empty) segment begins
+    specBody r rd { s with done := s.done ++ commitMutsOf s.ov s.del, ov := [], del := [],
+                           cinc := s.cinc ++ s.pend, pend := [] }
+  | .rollback :: r, rd, s =>
+    -- explicit `tx.rollback()`: the open segment is dropped
+    specBody r rd { s with ov := [], del := [], pend := [] }
 
-/-- the backend commands of a commit, for a final body state -/
-def commitMuts (s : BodySt) : List Mut :=
-  (if s.del ≠ [] then [Mut.delMany s.del] else []) ++ (if s.ov ≠ [] then [Mut.setMany s.ov] else [])
+/-- the backend commands of the commit of the segment that is open in body state `s` -/
+def commitMuts (s : BodySt) : List Mut := commitMutsOf s.ov s.del
 
 end CashewsVerif.TxSched
